@@ -228,3 +228,37 @@ chk('C13', 'exploration',
     'runtime monitoring: deep snapshots around random sequences of read-only '
     'operations',
     'DESIGN.md section 4 (C13)')
+chk('C19', 'exploration',
+    'RunTask objects with scripted command lines (sh -c scripts writing a '
+    'unique line on each stream, touching a marker file and exiting with 0, '
+    '1, 2, 127, 255 or killing themselves; missing and non-executable '
+    'programs at any position) are executed directly and through the real '
+    'scheduler, several tasks at once with 1-4 workers, under names that '
+    'include the empty string, a/b, .., NUL, spaces, unicode; the script is '
+    'the oracle: marker files say which commands ran, the status, the '
+    'recorded return codes, the ordered content of the captured stdout / '
+    'stderr files and the directory each task owns are compared with it; '
+    'the position of the first failure is enumerated completely for lists '
+    'of up to four commands.',
+    '/bin/sh trusted; when do() raises for a program that cannot be started '
+    'only status FAILED through the scheduler is required',
+    'runtime monitoring: scripted fault injection (exit codes, signals, '
+    'missing executables) with marker-file and captured-output oracles',
+    'DESIGN.md section 4 (C19)')
+chk('C20', 'exploration',
+    'Random report trees (depth up to the five supported levels and one '
+    'more, reserved / repeated / nested / unusable titles, 0-3 uniquely '
+    'named results per section) are formatted and written with the real '
+    'Rst.format_report().write(); the directory is read back: every page is '
+    'parsed with docutils and compared with the page set derived from the '
+    'tree, the unique text marker of every section and the description and '
+    'anchor of every result must appear exactly once and on the right page, '
+    'toctree entries and images are resolved on disk; for unusable titles '
+    'and too deep trees the call must raise with the target directory '
+    '(snapshot before / after) unchanged; nothing may be written outside the '
+    'target.',
+    'docutils trusted as reader; toctree entries resolved as Sphinx does; '
+    'titles free of markup',
+    'runtime monitoring: file-tree and docutils read-back oracle over '
+    'generated report trees, directory snapshots around rejected writes',
+    'DESIGN.md section 4 (C20)')
